@@ -79,7 +79,7 @@ def delivery_facts(data, src, core_):
         counters['rewinds'] = core_.rewinds
         for k, v in core_.fired.items():
             counters['fault_fired_' + k] = v
-    elif src.get('ch') in ('path', 'fileurl', 'http', 'pathobj'):
+    elif src.get('ch') in ('path', 'fileurl', 'http', 'pathobj', 'bytes', 'bytesio', 'text', 'stringio', 'resource'):
         cuts = list(range(16384, len(data), 16384))
     else:
         cuts = []
